@@ -223,6 +223,17 @@ CHECKS["C03"] = dict(
    note="Trusted: Coq kernel; Model/Str.v renders Python built-ins by hand. Five defects repaired (prefix/suffix via regex, indexof beyond the end, "
         "to_int via int(), constants/values through Z3 escapes, single-argument concat).")
 
+CHECKS["C20"] = dict(
+   text="Machine-checked proof (Coq) over Model/Tls.v (per-thread conversion caches; a backend object belongs to the Z3 context of the thread that "
+        "created it): for EVERY interleaving of conversion requests by any number of threads, each object a thread obtains belongs to its own "
+        "context and denotes the requested expression (C20_own_context); a request by one thread leaves the caches of the others untouched "
+        "(C20_isolated); a single shared cache fails (C20_shared_cache_refuted). Tie: real threads convert shared expressions; the context of "
+        "every returned object is compared with the converting thread's context on the recorded interleaving. Z3 itself, the GIL, the hash-consing "
+        "table and the frontends are NOT modelled: pre-generated solver scripts over shared expression objects are run alone and then by 2-16 "
+        "threads under several switch intervals, and every answer must equal the run alone (sampling of schedules, not a proof over them).",
+   design="5/C20", technique="Coq proof over all interleavings of the cache discipline; context-ownership correspondence; concurrent-vs-alone script tests",
+   note="Trusted: Coq kernel; Model/Tls.v hand-written; schedules are sampled by the interpreter (no deterministic scheduler as in C19).")
+
 REASONS = {}
 DEFAULT_REASON = "not claimed yet: its Coq model and correspondence harness are not built in this snapshot (see DESIGN.md section 10 for the order); no other technique is substituted"
 
